@@ -16,7 +16,7 @@ class Check(differential.DifferentialCheck):
             'Ed25519, integers at bit lengths 8k-1/8k/8k+1) or OpenSSH v00/v01 certificate, built through the library '
             'constructors and through the reference encoder; padding rule: one case = one payload length; distinct = '
             'SHA-1 of (class, reference bytes); non-trivial = every case')
-    BLOCKS = {'quick': 80, 'thorough': 1600}
+    BLOCKS = {'quick': 80, 'thorough': 12000}
     PER_BLOCK = 60
     ASSUMPTIONS = ('vmon/ref/ssh.py is my reading of RFC 4251/4253/4419/5656/8709 and PROTOCOL.certkeys',
                    'byte-for-byte comparison of composed packets assumes minimal, zero-filled padding (the RFC allows more and '
